@@ -14,11 +14,12 @@ COMMON_ASSUMPTIONS = [
     "annotated inputs have their annotated types (typing preconditions derived from the repository's own annotations)",
     "dict representation invariant (keys pairwise distinct, domain = key order) for every dict reachable from the inputs; no dict is mutated while iterated",
     "callables stored in models (rate laws etc.) are pure, total, deterministic",
+    "the entry heap is well formed: references reachable from the arguments denote objects allocated before entry (no object created by the verified function is reachable from them)",
 ]
 
 
 def run(prop: str, level: str, *, files: list[str] | None = None, targets: list[str] | None = None,
-        bounded: bool = True, extra=None, notes: str = "") -> None:
+        bounded: bool = True, extra=None, notes: str = "", more_sessions: list[tuple] | None = None) -> None:
     def body(ctx: Ctx) -> None:
         warnings.filterwarnings("ignore")
         os.environ.setdefault("TQDM_DISABLE", "1")
@@ -30,6 +31,10 @@ def run(prop: str, level: str, *, files: list[str] | None = None, targets: list[
 
             try:
                 verify_into(ctx, files, targets)
+                # further contract views of the same code base (separate sessions: a
+                # function may have a second contract in another file)
+                for f2, t2 in more_sessions or []:
+                    verify_into(ctx, f2, t2)
             except CheckerError as e:
                 deferred = e  # still run the bounded stand-in: a witness on the real code outranks a checker error
             ctx.assume(*COMMON_ASSUMPTIONS)
